@@ -25,6 +25,8 @@ def run_property(prop, overrides=None, repo=None):
     if fn is None:
         raise AnalysisError('no check registered for property {}'.format(prop))
     fn(ctx, rep)
+    from .report import model_precedence
+    model_precedence(rep)
     return rep
 
 
